@@ -528,16 +528,29 @@ impl Scenario for C17Corrupt {
             }
             let pos = pos0 + shift;
             let units: Vec<Unit> = units0.iter().map(|u| Unit { kind: u.kind, name: u.name.clone(), wide_start: u.wide_start + shift, start: u.start + shift, end: u.end + shift }).collect();
-            let path = format!("{root}/in{ci}.asn1");
-            let srcs = if case.file {
+            // file names are byte strings: one file case in three has a name with punctuation,
+            // a non-ASCII character, or bytes that are NOT valid UTF-8 (a Latin-1 name) — the path is
+            // then reported as `to_string_lossy` renders it
+            let odd = ["", "", "", "", "", "", ",v2", "-\u{e9}t\u{e9}", "{xf3}", "m{xe4}{xfc}"][(mix(p.seed, 0x0dd0 + ci as u64) % 10) as usize];
+            let path = format!("{root}/in{ci}{odd}.asn1");
+            let path_real = sut::real_path(&path);
+            let path_shown = path_real.to_string_lossy().to_string();
+            // one file case in four: the size the file system reports for the file is 0 although all
+            // of it can be read (a benign fault: st_size is a hint); the stored file then holds the
+            // damage itself
+            let size_lie = case.file && mix(p.seed, 0x512e + ci as u64) % 4 == 0;
+            let srcs = if case.file && size_lie {
+                std::fs::write(&path_real, ctext.as_bytes()).unwrap();
+                vec![Src::Path(path.clone())]
+            } else if case.file {
                 // the stored file is intact; the seam corrupts the bytes in flight
                 match &case.c {
                     Corruption::BlankThenReplace { blank, .. } => {
                         let mut stored = text.clone().into_bytes();
                         stored[*blank] = b' ';
-                        std::fs::write(&path, &stored).unwrap();
+                        std::fs::write(&path_real, &stored).unwrap();
                     }
-                    _ => std::fs::write(&path, &text).unwrap(),
+                    _ => std::fs::write(&path_real, &text).unwrap(),
                 }
                 vec![Src::Path(path.clone())]
             } else {
@@ -555,7 +568,9 @@ impl Scenario for C17Corrupt {
             };
             let mut cfg = SimCfg::simple(p.seed ^ ci as u64);
             cfg.entropy = p.entropy.wrapping_add(ci as u64);
-            if case.file {
+            if size_lie {
+                cfg.faults = vec![Fault { cls: shim::C_STAT, ord: shim::ANY_ORD, kind: shim::F_SHORT, a: 0, b: 0 }];
+            } else if case.file {
                 cfg.faults = seam_faults(&case.c);
             }
             let be = if case.ts { BackendSel::Ts } else { BackendSel::Rasn(RasnCfg::default_cfg()) };
@@ -581,7 +596,7 @@ impl Scenario for C17Corrupt {
             });
             let (mut results, rep) = sim::run_sim(&cfg, None, root, vec![body]);
             out.steps += rep.sched.steps + rep.events.len() as u64;
-            let _ = std::fs::remove_file(&path);
+            let _ = std::fs::remove_file(&path_real);
             let _ = std::fs::remove_file(format!("{root}/pre{ci}.asn1"));
             if case.pre != 0 {
                 out.count("delivery.after_wellformed_sources", 1);
@@ -596,7 +611,16 @@ impl Scenario for C17Corrupt {
             out.count("corruptions", 1);
             out.count(&format!("corruption.{}", match case.c { Corruption::Replace { .. } => "replace", Corruption::SectorZero { .. } => "sector_zero", Corruption::Truncate { .. } => "truncate", Corruption::TruncateAtBoundary { .. } => "truncate_at_boundary", Corruption::BreakCommentEnd { .. } => "break_comment_end", Corruption::BlankThenReplace { .. } => "blank_comma_then_replace" }), 1);
             out.count(if case.file { "delivery.file_corrupted_by_seam" } else { "delivery.literal" }, 1);
-            if case.file {
+            if size_lie {
+                out.count("delivery.file_whose_reported_size_is_zero", 1);
+                if rep.fired.iter().all(|n| *n == 0) {
+                    out.count("skipped.size_fault_did_not_fire", 1);
+                    continue;
+                }
+                // (the stored file holds exactly the judged text and nothing is damaged in flight, so
+                // there is no read pattern to validate: how much of it the compiler chose to read is
+                // its own business, and reading less than all of it is what this fault is there to find)
+            } else if case.file {
                 // the seam must have delivered what `ctext` models: one read of the whole (or truncated) file
                 let reads: Vec<i64> = rep.events.iter().filter(|e| e.call == "read").map(|e| e.res).collect();
                 let expect = match case.c {
@@ -722,7 +746,10 @@ impl Scenario for C17Corrupt {
                     }
                     // 5. path reporting
                     if case.file {
-                        let want = path.clone();
+                        let want = path_shown.clone();
+                        if want != path {
+                            out.count("probe.path_of_a_file_whose_name_is_not_utf8", 1);
+                        }
                         if r.src_file.as_deref() != Some(want.as_str()) || dpath.as_deref() != Some(want.as_str()) || hpath.as_deref() != Some(want.as_str()) {
                             out.violate("path-reported", format!("source given by path {} but src_file={:?}, Display path={:?}, contextualize path={:?}; {ctx}", want.replace(root, "<ROOT>"), r.src_file.as_ref().map(|f| f.replace(root, "<ROOT>")), dpath.as_ref().map(|f| f.replace(root, "<ROOT>")), hpath.as_ref().map(|f| f.replace(root, "<ROOT>"))));
                         }
